@@ -361,9 +361,13 @@ def check_whole_assign(X, cls, obj, view, buf, want, ctx, rnd, P):
             newv = ((cur.astype("int64") + 1) % 100).astype(cur.dtype)
             kind = "same-shape"
         first, second = (obj, view) if rnd.random() < 0.5 else (view, obj)
+        given = newv
+        if cur.dtype.itemsize > 1 and rnd.random() < 0.5:
+            given = newv.astype(newv.dtype.newbyteorder())  # same values, foreign byte order
+            kind += ":byteswapped-source"
         try:
             plain(X, getattr(first, f.name))  # the first alias looks at the field
-            setattr(second, f.name, newv)
+            setattr(second, f.name, given)
         except Exception as e:  # noqa
             P.add("C10", f"whole-assign:{len(FT._shape)}d:{kind}:raised:{type(e).__name__}", field=f.name, problem=str(e)[:200], **ctx)
             continue
@@ -429,15 +433,28 @@ def check_misuse(X, cls, obj, buf, want, ctx, rnd, P):
             if len(want) > 1 and not isinstance(item, (dict, list, tuple)):
                 expect_error(f"update-shorter:{dyn}items", lambda: obj._update(list(want)[:-1]))
                 if cls._shape[0] is None:
-                    # a same-class array object of another length (same slot-rounded byte size for small items)
-                    other = cls(list(want)[:-1], _buffer=buf)
-                    expect_error(f"update-from-array-of-other-length:{dyn}items", lambda: obj._update(other))
+                    # a same-class array object of another length, preferably one with the same slot-rounded byte size
+                    cands = [m for m in range(1, 10) if m != len(want)]
+                    same = [m for m in cands if cls._inspect_args((list(want) * 10)[:m]).size == obj._size]
+                    m = (same or [len(want) - 1])[0]
+                    other = cls((list(want) * 10)[:m], _buffer=buf)
+                    expect_error(f"update-from-array-of-other-length:{dyn}items", lambda: obj._update(other), other_length=m)
     if X.struct.is_struct(cls):
         for f in cls._fields:
             if f.ftype is X.String:
                 old = want[f.name]
                 big = old + "y" * (slot(len(old.encode()) + 9) - 9 - len(old.encode()) + 1)
                 expect_error("string-too-large:struct-field", lambda f=f, big=big: setattr(obj, f.name, big), field=f.name, new_value=big)
+            if X.struct.is_struct(f.ftype) and f.ftype._size is None:
+                # a same-class value that needs more room than the nested struct has
+                big = _grow(X, f.ftype, want[f.name])
+                if big is not None:
+                    try:
+                        bigobj = f.ftype(**big)
+                        if bigobj._size > getattr(obj, f.name)._size:
+                            expect_error("nested-struct-too-large", lambda f=f, bigobj=bigobj: setattr(obj, f.name, bigobj), field=f.name)
+                    except Exception:  # noqa
+                        pass
             if X.ref.is_unionref(f.ftype):
                 other = grammar.mkstruct(grammar.uniq("NotAMember"), {"q": X.Int64})
                 expect_error("union-non-member", lambda f=f: setattr(obj, f.name, other(q=1)), field=f.name)
@@ -450,6 +467,19 @@ def check_misuse(X, cls, obj, buf, want, ctx, rnd, P):
 
 def _as_arg(want):
     return want
+
+
+def _grow(X, T, val):
+    """a value of struct type T like val with one dynamic array field made longer"""
+    out = dict(val)
+    grown = False
+    for f in T._fields:
+        if not grown and X.array.is_array(f.ftype) and len(f.ftype._shape) == 1 and f.ftype._shape[0] is None and X.scalar.is_scalar(f.ftype._itemtype):
+            out[f.name] = list(val[f.name]) + [val[f.name][0] if len(val[f.name]) else 1] * 9
+            grown = True
+        elif X.scalar.is_scalar(f.ftype) and f.ftype._dtype.kind in "iu":
+            out[f.name] = (int(val[f.name]) + 1) % 100  # a visible change in a field that does fit
+    return out if grown else None
 
 
 def check_refs(X, sl, rnd, P):
@@ -543,6 +573,30 @@ def check_refs(X, sl, rnd, P):
                     if hh._xobject.r.a != tv.a:
                         P.add("C08", f"hybrid-ref-history:{step}:write-not-visible", **ctx)
                         break
+        # references inside a copied holder resolve to live objects of the copy's buffer: the same referent in the same buffer
+        for RC in (sl.R2, sl.R3):
+            try:
+                if RC is sl.R2:
+                    src_h = RC(tag=1, p=s1, q=arr, _buffer=buf)
+                    names = ("p", "q")
+                else:
+                    src_h = RC(n=1, r=s1, x=[1.0, 2.0], y=[1, 2, 3], _buffer=buf)
+                    names = ("r",)
+                for dest in (buf, X.ContextCpu().new_buffer(32)):
+                    cp = RC(src_h, _buffer=dest)
+                    for nm in names:
+                        t0, t1 = getattr(src_h, nm), getattr(cp, nm)
+                        same = dest is buf
+                        if t1 is None or t1._buffer is not dest or not eq(plain(X, t1), plain(X, t0)) or (same and t1._offset != t0._offset):
+                            P.add("C08", f"copied-holder:ref-resolution:{'same' if same else 'other'}-buffer", holder=RC.__name__, field=nm, **ctx)
+                        fr = free_set(dest)
+                        if t1 is not None and any(x in fr for x in range(t1._offset, t1._offset + t1._get_size())):
+                            P.add("C08", "copied-holder:target-not-live", holder=RC.__name__, field=nm, **ctx)
+                    vw = RC._from_buffer(dest, cp._offset)
+                    if not eq(plain(X, vw), plain(X, src_h)):
+                        P.add("C08", "copied-holder:view-differs", holder=RC.__name__, **ctx)
+            except Exception as e:  # noqa
+                P.add("C08", f"copied-holder:raised:{type(e).__name__}", holder=RC.__name__, problem=str(e)[:200], **ctx)
         # growth
         want = plain(X, obj)
         store0 = buf.buffer
